@@ -12,11 +12,14 @@ def codec_nontrivial(tok, res):
         return " C[] alive" not in res
     if tok[0] == "lane":            # a message reached a waiting Do call
         return "t>" in res
-    return tok[0] in ("first", "later", "gold", "sess", "nh")
+    return tok[0] in ("first", "later", "gold", "sess", "nh", "batch")
 
 
 def codec_class(r):
     w = r.split(" ")
+    if len(w) >= 7 and w[0][:1] == "t" and w[0][1:].isdigit() and w[1].startswith("B"):   # batch: items, all retained values unchanged?
+        return "batch:%s:%s" % ("udp" if w[3].startswith("Vp") else "msg",
+                                 "kept" if all(x == "L=" for x in w[5::7]) else "changed")
     if r.startswith("P"):            # nh: outcome, eq
         return "nh:" + " ".join(w[2:4])
     if r[:1] in ("r", "f", "c") and (len(w[0]) == 1 or w[0].startswith(("c:", "t>"))):   # lane
@@ -24,7 +27,7 @@ def codec_class(r):
     if r.startswith("T["):           # disp: state / calls? / after-close ; sess: replies, closed?, alive?
         if len(w) > 1 and w[1].startswith("C["):
             return "%s:%s:%s" % (w[2].split("@")[0], "calls" if len(w[1]) > 3 else "nocall", w[3])
-        return " ".join(x.split("=")[0] + ("=" + str(x.count("Pong")) if "=" in x else "") for x in w[1:])
+        return " ".join(x.split("=")[0] + ("=" + str(len([y for y in x.split("=")[1].split(",") if y])) if "=" in x else "") for x in w[1:])
     if r.startswith("B"):            # rt: outcome + eq flag
         return "rt:" + (w[2].split(":")[0] + ":" + w[2].split(":")[1] if w[2].startswith("err") else "msg") + ":" + w[5] + (":obj" if len(w) > 6 and w[6] != "O-" else "")
     if w[0].startswith("msg:"):
@@ -72,8 +75,17 @@ PROP = {
             "Frp.C17.nh_roundtrip", "Frp.C17.nh_decode_sound",
             "Frp.C17.laneInv_step", "Frp.C17.lane_inv", "Frp.C17.dispatch_to_registered",
             "Frp.C17.dispatch_unregistered_dropped", "Frp.C17.never_to_another",
+            # handlers wrapped in msg.AsyncHandler (calls as a multiset); `-0`; member-name folding
+            "Frp.C17.dispHoldsOnAsync_sound", "Frp.C17.fitsF_neg_zero", "Frp.C17.lower_examples",
+            # values that PERSIST (Props/C17Batch): a retained result is never altered by a later decode, whole
+            # batches on one connection and on several goroutines under any schedule, the udp payload codec,
+            # encoding a retained value again
+            "Frp.C17.read_keeps", "Frp.C17.reads_keeps", "Frp.C17.kept_stable", "Frp.C17.batch_roundtrip",
+            "Frp.C17.sched_independent", "Frp.C17.par_batch_roundtrip",
+            "Frp.C17.udp_content_roundtrip", "Frp.C17.udp_batch_roundtrip", "Frp.C17.udp_pack_injective",
+            "Frp.C17.reencode_stable", "Frp.C17.decode_reencode", "Frp.C17.itemHolds_sound", "Frp.C17.udpItemHolds_sound",
         ],
-        "extra_targets": ["Frp.Props.C17Dispatch", "Frp.Props.C17Lane"],
+        "extra_targets": ["Frp.Props.C17Dispatch", "Frp.Props.C17Lane", "Frp.Props.C17Batch"],
         "engines": [
             {"name": "codec", "quick_n": 20000, "thorough_n": 80000, "thorough_seeds": 5, "search_n": 6000, "search_seeds": 3,
              "nontrivial": codec_nontrivial, "result_class": codec_class},
@@ -99,14 +111,27 @@ PROP = {
                 "values of all types, right key / wrong key / one bit of the data flipped / data cut off, the outcome "
                 "predicted from the bytes the data decrypts to (standard-library AES-CFB, trusted) and the round trip "
                 "demanded for the right key; lane = the real transport.MessageTransporter under generated histories of "
-                "Do / Dispatch / cancel (which Do call received which message). Non-trivial = every case except a "
-                "plain empty-object frame; distinct = distinct (op line, result) pairs",
+                "Do / Dispatch / cancel (which Do call received which message); batch = the lossless clause as a statement "
+                "about values that PERSIST: k generated values (udp: payloads of 0…7400 bytes with nil / IPv4 / IPv6 "
+                "addresses) are encoded by the real encoder and decoded through one decode entry point — msg.ReadMsg and "
+                "msg.ReadMsgInto (k calls on ONE reader holding the frames back to back), a msg.Dispatcher over a pipe, "
+                "nathole EncodeMessage→DecodeMessageInto, udp.NewUDPPacket→WriteMsg→ReadMsg→udp.GetContent — on one "
+                "goroutine or on 2/4/8 goroutines with a reader each; every result is RETAINED as returned and dumped at "
+                "once and again after the whole batch, then encoded again: the driver demands that the late dump is the "
+                "early one and the model's value of what went in (norm2 / base64 model), and that the re-encoded frame is "
+                "the model's frame of the original body — a result that changes after a later decode is prop=FAILS; "
+                "disp also runs with every handler wrapped in msg.AsyncHandler (calls compared as a multiset, each "
+                "delivery of the model must find a call of its own with the model's value); sess streams carry Ping, "
+                "NewProxy (one NewProxyResp each), CloseProxy, NatHoleReport and unhandled types. Non-trivial = every "
+                "case except a plain empty-object frame; distinct = distinct (op line, result) pairs",
         "trusted": COMMON_TRUST + [
             "encoding/json's TEXT level (which byte strings are a JSON text, which tree they denote, how values print) "
             "is trusted. For rd/into/rt the JSON verdict of each run is taken from the implementation as an oracle "
             "bit (only the literal `null` is modelled); for disp/sess the verdict is the model's: member lookup (exact, "
             "then ASCII case-folded), JSON type per field kind, integer syntax and range, element types, nested "
-            "structs (Frp/Model/Dispatcher.lean `fits2`). "
+            "structs (Frp/Model/Dispatcher.lean `fits2`); the verdict of net.IP.UnmarshalText on an address text and the "
+            "text MarshalText prints afterwards come from Frp/Model/IPText.lean (netip.ParseAddr / appendTo6 mirrored for "
+            "both families; hand-written, tied by the disp/nh ops and a corpus of 250 texts). "
             "The object level (which members with which values; Frp/Model/MsgObj.lean) IS modelled and tied; JSON text "
             "syntax (escaping, number text, member order) and net.IP text form stay trusted",
             "model Frp/Model/Frame.lean written by hand from golib@v0.5.1 msg/json {process,pack,msg}.go; tied by the codec engine",
@@ -118,11 +143,17 @@ PROP = {
             "receiver's struct (that is what is checked), wrong key ⇒ error holds with overwhelming probability only; "
             "transporter: a second Do under the same type and lane takes the registry entry over (Go map semantics, "
             "mirrored; frp's lane keys are random transaction ids)",
-            "disp/sess: member names with non-ASCII bytes (Unicode case folding), the number `-0` and IPv6 address texts "
-            "are outside the modelled domain and skipped; the VALUE a handler receives is compared only for bodies whose "
-            "member names are exact and strictly increasing at every level (else only handler, struct and offset); "
-            "handlers are synchronous (msg.AsyncHandler gives no order); sess: the well-formed part consists of Ping "
-            "and of types the server's dispatcher has no handler for",
+            "disp/sess: the VALUE a handler receives is compared only for bodies whose member names are exact ASCII and "
+            "strictly increasing at every level (else only handler, struct and offset); member names fold as "
+            "encoding/json folds them (ASCII case plus U+212A / U+017F, the only non-ASCII runes whose folding orbit holds "
+            "an ASCII letter; member names are valid UTF-8 after unquoting); `-0` is an integer literal for signed fields "
+            "only; for msg.AsyncHandler no order is claimed (calls form a multiset; the harness waits, event driven, for "
+            "as many calls as encoding/json itself accepts frames — that estimate only bounds the wait); sess: the "
+            "well-formed part consists of Ping, NewProxy (exactly one NewProxyResp is claimed, not its content), "
+            "CloseProxy, NatHoleReport and types the server has no handler for; NatHoleVisitor / NatHoleClient are skipped",
+            "batch: persistence is claimed for values the caller retains WITHOUT copying, compared by reflection dump "
+            "(messages) / bytes (udp content); bodies above the bound are drawn again (rt covers them); goroutine "
+            "schedules are whatever the Go scheduler does in the run (the theorem covers all schedules, the run samples them)",
             "round trip is claimed for messages whose JSON body is at most 10240 bytes: WriteMsg does not enforce the "
             "bound, ReadMsg does (oversize values are generated and must come back as ErrMaxMsgLength)",
             "equality after round trip is modulo: empty map/slice == nil (omitempty), 4-byte IP == 16-byte form; "
@@ -156,6 +187,13 @@ META = {
                 "way; the result does not depend on how the bytes are cut into writes; the send side is FIFO. The nat-hole codec returns the message for every cipher that decrypts what it encrypted "
                 "and otherwise only what the decrypted bytes frame; a message given to the transporter reaches exactly the "
                 "waiting Do call registered for its type and lane key, at most one per call, else it is dropped. "
+                "Values that persist: a connection is a reader plus the list of results its caller retains; a ReadMsg only "
+                "appends to it (read_keeps / reads_keeps / kept_stable), k frames written back to back decode to exactly the "
+                "k values (batch_roundtrip), and under EVERY schedule of goroutines decoding on their own connections each "
+                "ends with the result of its own reads alone (sched_independent, par_batch_roundtrip); GetContent(NewUDPPacket b) "
+                "= b for every payload and every batch of payloads, distinct payloads never collide (udp_*); the value that "
+                "was decoded encodes to the object that was on the wire (reencode_stable, decode_reencode); with "
+                "msg.AsyncHandler the calls are a permutation of the deliveries (dispHoldsOnAsync_sound). "
                 "The model is tied to the code by thousands of generated values/byte strings/streams per "
                 "run with the Lean predicate evaluated on the implementation's own results.",
         "note": "Finding C17-null-body (fixed by 5c99d8a): a frame whose JSON body is the literal null made ReadMsg "
